@@ -36,10 +36,11 @@ TRACE_SCRIPT = r'''#!/bin/sh
 {
   printf 'H %%s' "$(basename "$0")"
   for a in "$@"; do printf ' [%%s]' "$a"; done
-  printf ' RA=[%%s] rb=%%s cp=%%s sq=%%s\n' "$GIT_REFLOG_ACTION" \
+  printf ' RA=[%%s] rb=%%s cp=%%s sq=%%s te=%%s\n' "$GIT_REFLOG_ACTION" \
     "$( { [ -d "$GIT_DIR/rebase-merge" ] || [ -d "$GIT_DIR/rebase-apply" ]; } && echo 1 || echo 0)" \
     "$( [ -f "$GIT_DIR/CHERRY_PICK_HEAD" ] && echo 1 || echo 0)" \
-    "$( [ -d "$GIT_DIR/sequencer" ] && echo 1 || echo 0)"
+    "$( [ -d "$GIT_DIR/sequencer" ] && echo 1 || echo 0)" \
+    "$( [ -f "$GIT_DIR/rebase-merge/git-rebase-todo" ] && ! grep -q '[^[:space:]]' "$GIT_DIR/rebase-merge/git-rebase-todo" && echo 1 || echo 0)"
   case "$(basename "$0")" in
     post-rewrite|reference-transaction|pre-push) sed 's/^/I /' ;;
   esac
@@ -408,11 +409,12 @@ def parse_trace(path):
             segs.append({"cmd": l[2:], "hooks": []})
             cur = None
         elif l.startswith("H "):
-            m = re.match(r"^H (\S+)((?: \[[^\]]*\])*) RA=\[(.*)\] rb=(\d) cp=(\d) sq=(\d)$", l)
+            m = re.match(r"^H (\S+)((?: \[[^\]]*\])*) RA=\[(.*)\] rb=(\d) cp=(\d) sq=(\d) te=(\d)$", l)
             if not m:
                 continue
             cur = {"name": m.group(1), "args": re.findall(r"\[([^\]]*)\]", m.group(2)), "ra": m.group(3),
-                   "rb": m.group(4) == "1", "cp": m.group(5) == "1", "sq": m.group(6) == "1", "stdin": []}
+                   "rb": m.group(4) == "1", "cp": m.group(5) == "1", "sq": m.group(6) == "1", "te": m.group(7) == "1",
+                   "stdin": []}
             segs[-1]["hooks"].append(cur)
         elif l.startswith("I ") and cur is not None:
             cur["stdin"].append(l[2:].split())
@@ -506,11 +508,14 @@ class Observer:
         self.steps = []
 
     def before(self, sim, k, st):
-        return len(sim.journal())
+        return (len(sim.journal()), _q(sim, "rev-parse", "-q", "--verify", "HEAD").strip())
 
-    def after(self, sim, k, st, res, before):
+    def after(self, sim, k, st, res, before_):
+        before, head0 = before_
         j = sim.journal()
         self.steps.append({"k": k, "args": st[1], "rc": res[0], "new": j[before:] if before <= len(j) else j,
+                           "head0": head0, "head1": _q(sim, "rev-parse", "-q", "--verify", "HEAD").strip(),
+                           "out": (res[1] + res[2])[-300:],
                            "side": sim.side_files() if sim.mode != "wrapper" else [],
                            "masked": sim.masked_hooks() if sim.mode != "wrapper" else []})
 
@@ -605,6 +610,109 @@ def shape_of(ev):
     return [k]
 
 
+# ---------------------------------------------------------------------------------------------
+# known classes: decidable predicates on (command sequence, git-level facts)
+# ---------------------------------------------------------------------------------------------
+KNOWN_DOC = {
+    "C13-K1": "hook mask leak: a rebase that git ends without firing `post-rewrite rebase` (--abort, fast-forward, every "
+              "commit dropped/skipped) leaves pre-commit/post-commit/reference-transaction/post-merge masked in hooks mode "
+              "until the next checkout or rewrite: commits in that window get no note, stash/reset/squash are not seen",
+    "C13-K2": "rebase whose post-rewrite mapping is not the positional list the wrapper computes (rebase -i drop / squash / "
+              "fixup, commits skipped as already upstream): the two RebaseComplete events carry different commit lists",
+    "C13-K3": "git commit / commit --amend while a rebase is stopped (edit, conflict): the wrapper runs its commit hooks, "
+              "hooks mode ignores pre-commit/post-commit/post-rewrite amend during a rebase",
+    "C13-K4": "cherry-pick of two or more commits: the wrapper rewrites them as one batch (content replay over the whole "
+              "range), hooks mode commit by commit",
+    "C13-K5": "cherry-pick stopped by a conflict and concluded with `git commit`: the wrapper records a plain commit (no "
+              "attribution carried over), hooks mode a cherry-pick",
+    "C13-K6": "reset that does not move HEAD backwards (reset --hard [HEAD], forward/unrelated target, path reset): only the "
+              "wrapper clears / rebuilds the pending attribution; hooks mode sees no qualifying reference-transaction",
+    "C13-K7": "path checkout (`git checkout [<tree>] -- <path>`): only the wrapper drops the pending attribution of the path "
+              "(the post-checkout hook carries no pathspec)",
+    "C13-K8": "git stash apply (refs/stash unchanged): hooks mode cannot see it, attribution saved with the stash is not restored",
+    "C13-K9": "git merge --squash that is already up to date: git fires no post-merge; the wrapper still records a "
+              "MergeSquash event and deletes the pending attribution of HEAD",
+}
+
+
+def classify(res):
+    """-> {class id: [step descriptions]} from the script's git steps, the native hook trace and the wrapper observer"""
+    hits = {}
+
+    def hit(k, what):
+        hits.setdefault(k, []).append(what)
+
+    segs = res["segs_native"]
+    steps = res["steps_W"]
+    n = min(len(segs), len(steps))
+    mask = False
+    for i in range(n):
+        seg, st = segs[i], steps[i]
+        a = st["args"]
+        cmd = a[0] if a else ""
+        names = [h["name"] for h in seg["hooks"]]
+        # ---- K1: the mask state machine of hooks mode driven by git's native firing
+        for h in seg["hooks"]:
+            nm = h["name"]
+            if nm == "pre-rebase":
+                mask = True
+            elif nm == "post-rewrite" and h["args"][:1] == ["rebase"]:
+                mask = False
+            elif nm in ("post-checkout", "post-rewrite"):
+                ra = h["ra"].lower()
+                if ("rebase (abort)" in ra) or ("rebase --abort" in ra) or (mask and not h["rb"]) or \
+                        (nm == "post-checkout" and ra.startswith("pull") and h["rb"] and h["te"]):
+                    mask = False
+            elif nm in MANAGED and mask and not h["rb"]:
+                if nm in ("pre-commit", "post-commit", "post-merge") or \
+                        (nm == "reference-transaction" and h["args"][:1] == ["committed"] and
+                         (any(len(x) >= 3 and x[2] == "refs/stash" for x in h["stdin"]) or
+                          (cmd == "reset" and any(len(x) >= 3 and x[2] == "HEAD" for x in h["stdin"])))):
+                    hit("C13-K1", f"step {i} `git {' '.join(a[:3])}`: {nm} fires while the mask is on")
+        # ---- K2
+        for h in seg["hooks"]:
+            if h["name"] == "post-rewrite" and h["args"][:1] == ["rebase"]:
+                olds = [x[0] for x in h["stdin"] if len(x) >= 2]
+                news = [x[1] for x in h["stdin"] if len(x) >= 2]
+                rc_ = [e["rebase_complete"] for e in st["new"] if "rebase_complete" in e]
+                if not rc_ or rc_[0]["original_commits"] != olds or rc_[0]["new_commits"] != news:
+                    hit("C13-K2", f"step {i} `git {' '.join(a[:3])}`: post-rewrite maps {len(olds)}->{len(set(news))}, "
+                                  f"wrapper {[(len(x['original_commits']), len(x['new_commits'])) for x in rc_]}")
+        # ---- K3 / K5
+        if cmd == "commit":
+            if any(h["rb"] for h in seg["hooks"] if h["name"] in ("pre-commit", "post-commit", "prepare-commit-msg")):
+                hit("C13-K3", f"step {i}: commit while a rebase is stopped")
+            if any(h["cp"] for h in seg["hooks"] if h["name"] in ("pre-commit", "prepare-commit-msg")):
+                hit("C13-K5", f"step {i}: commit concludes a cherry-pick")
+        # ---- K4
+        if cmd == "cherry-pick":
+            k0 = i
+            while k0 > 0 and steps[k0]["args"][:1] == ["cherry-pick"] and steps[k0]["args"][1:2] and \
+                    steps[k0]["args"][1] in ("--continue", "--skip", "--abort"):
+                k0 -= 1
+            made = sum(1 for j in range(k0, i + 1) for h in segs[j]["hooks"] if h["name"] == "post-commit")
+            if made >= 2:
+                hit("C13-K4", f"step {i}: cherry-pick operation made {made} commits")
+        # ---- K6
+        if cmd == "reset" and st["rc"] == 0:
+            if "--" in a:
+                hit("C13-K6", f"step {i}: path reset")
+            elif st["head0"] == st["head1"]:
+                hit("C13-K6", f"step {i}: reset without moving HEAD")
+            elif not st.get("backward", True):
+                hit("C13-K6", f"step {i}: reset forwards / to an unrelated commit")
+        # ---- K7
+        if cmd == "checkout" and "--" in a:
+            hit("C13-K7", f"step {i}: path checkout")
+        # ---- K8
+        if cmd == "stash" and a[1:2] == ["apply"] and st["rc"] == 0:
+            hit("C13-K8", f"step {i}: stash apply")
+        # ---- K9
+        if cmd == "merge" and "--squash" in a and st["rc"] == 0 and "post-merge" not in names:
+            hit("C13-K9", f"step {i}: merge --squash, nothing to merge")
+    return hits
+
+
 if __name__ == "__main__":
     import sys
     import time
@@ -619,11 +727,16 @@ if __name__ == "__main__":
             print("ERROR", r_["error"][-2500:])
             continue
         real = [d for d in r_["diffs"] if d["kind"] != "info"]
-        print(r_["stream"], r_["idx"], "commits", r_["n_commits"], "same_ids", r_["same_ids"], "script", r_["script_len"],
+        hits = classify(r_)
+        print("KNOWN" if hits else "clean", sorted(hits), r_["stream"], r_["idx"], "commits", r_["n_commits"], "same_ids", r_["same_ids"], "script", r_["script_len"],
               "DIFFS" if real else "same", len(real), "problems", len(r_["problems"]), "side_end", r_["side_end"])
         print("    ", [t[0] if t[0] != "edit" else "e" for t in r_["trace"]])
+        for k_, v_ in hits.items():
+            print("     K", k_, v_[:2])
         for d in real[:3]:
             print("     D", json.dumps(d)[:400])
         for p in r_["problems"][:2]:
             print("     P", json.dumps(p)[:600])
     shutil.rmtree(base, ignore_errors=True)
+
+
